@@ -18,6 +18,7 @@ type anode struct {
 	V    any     `json:"v,omitempty"`
 	Kids []anode `json:"kids,omitempty"` // S: elements; C: Kids[0] = expression
 	Kw   string  `json:"kw,omitempty"`
+	Fail bool    `json:"failing_unmarshaler,omitempty"`
 	Pos  int     `json:"pos,omitempty"` // index into the forms vector (nested positions only, 1-based; 0 = root)
 	// Clos: the nested Stack carries closures of its own (unmarshal, presentation, validity, equality):
 	// they are honoured, or not, in the same way whatever form the Stack is stored in
@@ -76,6 +77,11 @@ func (n anode) buildX(forms []int, h bool, late *[]func()) any {
 			vals = append(vals, k.buildX(forms, h, late))
 		}
 		fill(s, vals, fillMode(n.String()))
+		if n.Fail {
+			// closures of the nested instance that fail: the error travels up the same way whatever form the
+			// instance is stored in
+			s.SetUnmarshaler(func(...any) ([]any, error) { return []any{"PARTIAL"}, errCat })
+		}
 		if n.Clos {
 			s.SetUnmarshaler(func(...any) ([]any, error) { return []any{"CUSTOM-UNMARSHAL"}, nil })
 			s.SetValidityPolicy(func(...any) error { return nil })
@@ -339,6 +345,27 @@ func c12Run(c *Ctx, cs c12Case, count bool) {
 		d1, d2 := stackage.Basic(), stackage.Basic()
 		ta = fmt.Sprint(ar.Transfer(d1), d1.Len(), d1.IsNesting())
 		tn = fmt.Sprint(nr.Transfer(d2), d2.Len(), d2.IsNesting())
+		// ... and into destinations with a capacity, with no-nesting, with both (room for the plain values
+		// only, for all but one, for all)
+		plainVals := 0
+		for _, e := range contents(nr) {
+			if _, isS := refAsStack(e); !isS {
+				plainVals++
+			}
+		}
+		for _, room := range []int{plainVals, nr.Len() - 1, nr.Len(), nr.Len() + 1} {
+			for _, nn := range []bool{false, true} {
+				if room < 1 {
+					continue
+				}
+				da, dn := stackage.List(room).SetNoNesting(nn), stackage.List(room).SetNoNesting(nn)
+				ta += fmt.Sprintf(" | cap=%d no-nesting=%v: %v %d %v", room, nn, ar.Transfer(da), da.Len(), da.IsNesting())
+				tn += fmt.Sprintf(" | cap=%d no-nesting=%v: %v %d %v", room, nn, nr.Transfer(dn), dn.Len(), dn.IsNesting())
+			}
+		}
+		ua, un := stackage.List().SetNoNesting(true), stackage.List().SetNoNesting(true)
+		ta += fmt.Sprintf(" | no-nesting: %v %d", ar.Transfer(ua), ua.Len())
+		tn += fmt.Sprintf(" | no-nesting: %v %d", nr.Transfer(un), un.Len())
 	}); p != "" {
 		c.Violation(key("panic:Defrag/Transfer"), desc+": "+p, cs, size)
 		return
@@ -517,6 +544,8 @@ func c12Trees(c *Ctx) []anode {
 	// nested Stacks with closures of their own
 	Sc := func(k string, kids ...anode) anode { return anode{T: "S", K: k, Kids: kids, Clos: true} }
 	trees = append(trees, S("AND", lf("a"), Sc("OR", lf("x"), lf("y")), lf("b")), S("LIST", C("k", Sc("AND", lf("p"))), Sc("NOT", lf("q"))))
+	Sf := func(k string, kids ...anode) anode { return anode{T: "S", K: k, Kids: kids, Fail: true} }
+	trees = append(trees, S("AND", C("kw", Sf("LIST", lf("a"), lf("b")))), S("OR", lf("x"), C("k", S("AND", Sf("OR", lf("deep"))))), S("AND", Sf("OR", lf("x")), lf("y")), S("LIST", C("k", Sf("AND", lf("p"))), Sf("NOT", lf("q")), C("k2", lf("v"))))
 	Cc := func(kw string, ex anode) anode { return anode{T: "C", Kw: kw, Kids: []anode{ex}, Clos: true} }
 	trees = append(trees, S("AND", lf("a"), Cc("ck", lf("v"))), S("OR", Cc("ck", S("LIST", lf("e"))), C("outer", Cc("inner", lf("w")))))
 	// the long regime: wide parents (8, 9, 20 elements) with the nested position first, in the middle, last
